@@ -366,6 +366,7 @@ class Ctx:
                         disagreements_checked=0, impl_vs_oracle_failures=0, model_vs_impl_disagreements=0)
         self.hist = {}
         self.seen = set()
+        self.jobs = {}           # failing oracle case -> the harness job (process) it was observed in
 
     def bump(self, k, n=1):
         self.hist[k] = self.hist.get(k, 0) + n
@@ -383,10 +384,15 @@ def stream_oracle(cx, profiles=None, mult=1, stop_on_first=False):
     profs = dict(T["oracle"]) if profiles is None else {k: T["oracle"].get(k, 50) for k in profiles}
     if not P.get("big"):
         profs.pop("big", None); profs.pop("large", None)
-    for prof, n in profs.items():
+    for pi, (prof, n) in enumerate(profs.items()):
         if prof == "memo" and cx.prop not in ("C01", "C02", "C04", "C09", "C11"):
             n = max(1, n // 3)
-        for (req, v) in run_oracle(n * mult, cx.seed * 1000003 + sum(map(ord, prof)) + (17 if mult > 1 else 0), prof, P["unsafe"]):
+        # every other job runs the protocols in descending order inside its process
+        jseed = cx.seed * 1000003 + sum(map(ord, prof)) + (17 if mult > 1 else 0)
+        jextra = ["--order", "desc"] if pi % 2 == 0 else []
+        jobcmd = "%s oracle --cases %d --seed %d --profile %s --unsafe %s %s | %s %s" % (
+            HARNESS, n * mult, jseed, prof, P["unsafe"], " ".join(jextra), DRIVER, os.path.join(REPO, "data", "stdlib_complete.txt"))
+        for (req, v) in run_oracle(n * mult, jseed, prof, P["unsafe"], extra=jextra):
             cx.cov["evaluations"] += 1
             r = toks(req)
             cx.bump("P%s/%s/%s" % (r.get("P"), "rand" if r.get("mode", "").startswith("rand") else "arb", prof))
@@ -406,6 +412,7 @@ def stream_oracle(cx, profiles=None, mult=1, stop_on_first=False):
                 cx.sample(dict(case=case_of(req), decoded_opcodes=int(v.get("n", 0)), verdict=v.get(key, "ok")))
             if key != "gen" and v.get(key, "").startswith("FAIL"):
                 cx.failing.append(("oracle", case_of(req), v[key]))
+                cx.jobs[case_of(req)] = jobcmd
                 if stop_on_first:
                     return
     cx.cov["distinct_nontrivial"] = len(cx.seen)
@@ -624,7 +631,7 @@ def recipe(kind, p):
         "a": ["ByteArray8"] if p >= 5 else None,
         "l": ["EmptyList"] if p >= 1 else ["Mark", "List"],
         "t": ["EmptyTuple"] if p >= 1 else ["Mark", "Tuple"],
-        "d": ["EmptyDict"] if p >= 1 else None,
+        "d": ["EmptyDict"] if p >= 1 else ["Mark", "Dict"],
         "e": ["EmptySet"] if p >= 4 else None,
         "z": ["Mark", "FrozenSet"] if p >= 4 else None,
         "o": (["Global"] + (["EmptyTuple"] if p >= 1 else ["Mark", "Tuple"]) + ["Reduce"]),
@@ -865,9 +872,18 @@ def check_property(prop, tier, seed):
             if stream == "oracle" and P["key"] != "gen":
                 mcl = minimise(cl, P["key"])
                 _, v = rerun_case(mcl)
-                det = v.get(P["key"], det)
+                extra_fields = {}
+                if v.get(P["key"], "").startswith("FAIL"):
+                    det = v[P["key"]]
+                else:
+                    # the case passes in a fresh process: the failure needs the earlier cases of its process
+                    mcl = cl
+                    extra_fields = dict(history_dependent=True,
+                                        fails_only_inside_process=cx.jobs.get(cl, "the oracle job that produced it"),
+                                        note="run alone in a fresh process this case meets the property; inside the job above (same process, earlier "
+                                             "generators of other protocols/configurations before it) the output with this id violates it")
             p = write_replay(prop, "failing-input", dict(stream=stream, case=mcl, observed=det,
-                                                         required="the property holds on this input", original_case=cl[:2000]))
+                                                         required="the property holds on this input", original_case=cl[:2000], **(extra_fields if stream == "oracle" and P["key"] != "gen" else {})))
             if any(ok_ in k for ok_ in open_keys):
                 known_lines.append("KNOWN-FINDING: property=%s %s (replay %s)" % (prop, det[:200], p))
             else:
@@ -1180,6 +1196,45 @@ def check_c13(prop, tier, seed):
     return finish(prop, tier, seed, t0, cov, violations, known_lines, notes)
 
 
+def cycle_plans(p):
+    """opcode plans for protocol p that make a mutable object reachable from itself (directly, through tuples,
+    or through a memo fetch), for every in-place mutation the simulated VM performs: APPEND/APPENDS on a list,
+    SETITEM/SETITEMS on a dict (as key and as value), ADDITEMS on a set, BUILD on an instance.  Plans the
+    guards do not admit are dropped by `steer`.  Each plan is tried as is and with a trailing POP (the cycle is
+    then unreachable from the stack when the generator is dropped)."""
+    plans = []
+    wrappers = [[]] + ([["Tuple1"], ["Tuple1", "Tuple1"], ["Dup", "Tuple2"], ["Dup", "Dup", "Tuple3"]] if p >= 2 else [])
+    puts = ["Put"] + (["BinPut", "LongBinPut"] if p >= 1 else []) + (["Memoize"] if p >= 4 else [])
+    gets = ["Get"] + (["BinGet", "LongBinGet"] if p >= 1 else [])
+    for x in "ldeo":
+        base = recipe(x, p)
+        if base is None:
+            continue
+        close1 = {"l": [["Append"]], "o": [["Build"]], "d": [["Dup", "SetItem"], ["Int:01", "SetItem"]], "e": []}[x]
+        for w in wrappers:
+            for cl in close1:
+                if x == "d" and cl[0] == "Dup" and w:
+                    continue
+                plans.append(base + ["Dup"] + w + cl)
+        # through the memo: a fetched object aliases (or copies) the memoized one
+        for put in puts:
+            for get in gets:
+                for cl in close1:
+                    plans.append(base + [put, get, "Dup"] + cl)
+                    plans.append(base + [put, get] + cl)
+                    plans.append(base + [put, "Pop", get, "Dup"] + cl)
+                closem = {"l": [["Mark", get, "Appends"]], "d": [["Mark", "Int:01", get, "SetItems"], ["Mark", get, "Int:01", "SetItems"]],
+                          "e": [["Mark", get, "AddItems"]], "o": []}[x]
+                for cl in closem:
+                    plans.append(base + [put] + cl)
+                break
+    out = []
+    for pl in plans:
+        out.append(pl)
+        out.append(pl + ["Pop"])
+    return out
+
+
 def check_c14(prop, tier, seed):
     """no leak: theorems C14.* on the abstract reference-counting heap (arena invariant preserved by allocation
     and in-place mutation; after release all edges point to older cells; no self-sustaining set), the
@@ -1221,6 +1276,41 @@ def check_c14(prop, tier, seed):
                     cx.failing.append(("S8", case_of(l), "%d_bytes_still_live_after_the_generator_was_dropped" % d))
     except Exception as e:
         cx.corr.append(dict(stream="S8", count=1, first="heap stream could not run: %s" % str(e)[:400]))
+    # cycle-closing plans: fuzzer bytes (built by the model's `steer`) under which the generator makes an
+    # object contain itself through each in-place mutation; the leak question is then asked of the real code
+    try:
+        reqs, cfgs = [], []
+        for p in range(6):
+            for pl in cycle_plans(p):
+                cfg = "P=%d unsafe=0 ext=0 buf=0 mask=0 rate=0000000000000000" % p
+                reqs.append("steer %s plan=%s" % (cfg, ",".join(pl)))
+                cfgs.append((cfg, pl))
+        outs = [l for l in drive("\n".join(reqs) + "\n") if l.startswith("steer ")]
+        lines = []
+        admitted = 0
+        for (cfg, pl), o in zip(cfgs, outs):
+            if not o.startswith("steer ok"):
+                continue
+            admitted += 1
+            b = toks(o).get("bytes", "-")
+            lines.append("id=%d %s min=%d max=%d warm=0 mode=arb:%s" % (admitted, cfg, len(pl), len(pl), b))
+        cov["cycle_plans"] = dict(built=len(reqs), admitted_by_the_guards=admitted)
+        if len(outs) != len(reqs) or admitted < 40:
+            cx.corr.append(dict(stream="S8", count=1, first="cycle plans: driver answered %d of %d, guards admitted %d" % (len(outs), len(reqs), admitted)))
+        rc, out, err = sh([HARNESS, "heap", "--stdin"], inp="\n".join(lines) + "\n", timeout=STREAM_TIMEOUT[0])
+        got = [l for l in out.split("\n") if l.startswith("heap id")]
+        if rc != 0 or len(got) != len(lines):
+            cx.corr.append(dict(stream="S8", count=1, first="cycle plans: harness rc=%s answered %d of %d: %s" % (rc, len(got), len(lines), err[-200:])))
+        for l in got:
+            r = toks(l)
+            cov["evaluations"] += 1
+            cx.bump("P%s/cycle-plan" % r.get("P"))
+            d = int(r.get("delta", "0"))
+            total += d
+            if d != 0:
+                cx.failing.append(("S8", case_of(l), "%d_bytes_still_live_after_the_generator_was_dropped(cycle_plan)" % d))
+    except Exception as e:
+        cx.corr.append(dict(stream="S8", count=1, first="cycle-plan stream could not run: %s" % str(e)[:400]))
     cov["distinct_nontrivial"] = len(seen)
     cov["sum_of_deltas_bytes"] = total
     cov["input_distribution"] = cx.hist
@@ -1257,7 +1347,17 @@ def replay(path):
         stream = body.get("stream", "oracle")
         print("stream:", stream)
         print("case:", body["case"][:600])
-        if stream == "oracle":
+        if stream == "oracle" and body.get("history_dependent"):
+            # the failure needs the process history: re-run the whole job and look at the same case id
+            job = body["fails_only_inside_process"]
+            print("process:", job)
+            rc, out, err = sh(["bash", "-c", job], timeout=STREAM_TIMEOUT[0], big_stack=True)
+            cid = toks("x " + body["case"]).get("id")
+            mine = [l for l in out.split("\n") if l.startswith("oracle ") and toks(l).get("id") == cid]
+            v = toks(mine[0]) if mine else {}
+            bad = v.get(key, "").startswith("FAIL")
+            print("verdict inside that process:", v.get(key), "(required ok)")
+        elif stream == "oracle":
             req, v = rerun_case(body["case"])
             bad = v.get("gen") != "ok" if key == "gen" else v.get(key, "").startswith("FAIL")
             print("verdict:", v.get(key), "(required ok)")
